@@ -10,6 +10,7 @@ import z3
 from vf import ty as T
 from vf.core import SV, FuncVal
 from vf.engine import Contract
+from contracts.lemmas import LEMMA_FUNCS
 
 MODULE = "dask/local.py"
 
@@ -25,32 +26,36 @@ StateT = T.Rec("State", {
 })
 
 denote = z3.Function("denote", Key.sort(), Val.sort())
+isdata = z3.Function("isdata", Key.sort(), z3.BoolSort())
 
 
 def WF(S="state", MID="EMPTY", R="results"):
-    """Representation invariant, as labelled clauses of the contract language."""
+    """Representation invariant, as labelled clauses of the contract language.
+    K := dom(dependencies) (keys reachable from the request); D := {k in K | isdata(k)}."""
     Wd = f'{S}["waiting"].keys()'
     dep, dpt, wd = f'{S}["dependencies"]', f'{S}["dependents"]', f'{S}["waiting_data"]'
     fin, run, rel, ready, cache, wait = (f'{S}["finished"]', f'{S}["running"]', f'{S}["released"]', f'{S}["ready"]', f'{S}["cache"]', f'{S}["waiting"]')
+    K = f"{dep}.keys()"
+    inD = lambda v: f"({v} in {K} and isdata({v}))"  # noqa: E731
     inready = f"k in {ready}"
     return [
-        ("W0-dom", f"{dep}.keys() == K and {dpt}.keys() == K and {R} <= K and D <= K"),
-        ("W0-inverse", f"forall(lambda k, d: implies(k in K and d in K, (d in {dep}[k]) == (k in {dpt}[d])), Key, Key)"),
-        ("W0-closed", f"forall(lambda k: implies(k in K, {dep}[k] <= K and {dpt}[k] <= K), Key)"),
-        ("W0-data", f"forall(lambda k: implies(k in D, {dep}[k] == EMPTY), Key)"),
-        ("W1-cover", f"forall(lambda k: (k in K and k not in D) == (k in {Wd} or {inready} or k in {run} or k in {fin}), Key)"),
+        ("W0-dom", f"{dpt}.keys() == {K} and {R} <= {K}"),
+        ("W0-inverse", f"forall(lambda k, d: implies(k in {K} and d in {K}, (d in {dep}[k]) == (k in {dpt}[d])), Key, Key)"),
+        ("W0-closed", f"forall(lambda k: implies(k in {K}, {dep}[k] <= {K} and {dpt}[k] <= {K}), Key)"),
+        ("W0-data", f"forall(lambda k: implies({inD('k')}, {dep}[k] == EMPTY), Key)"),
+        ("W1-cover", f"forall(lambda k: (k in {K} and not isdata(k)) == (k in {Wd} or {inready} or k in {run} or k in {fin}), Key)"),
         ("W1-disjoint", f"forall(lambda k: not (k in {Wd} and ({inready} or k in {run} or k in {fin})) and not ({inready} and (k in {run} or k in {fin})) and not (k in {run} and k in {fin}), Key)"),
         ("W1-ready-distinct", f"distinct({ready}) and len({ready}) >= 0"),
-        ("W2-waiting", f"forall(lambda k, d: implies(k in {Wd}, (d in {wait}[k]) == (d in {dep}[k] and d not in D and d not in {fin})), Key, Key)"),
+        ("W2-waiting", f"forall(lambda k, d: implies(k in {Wd}, (d in {wait}[k]) == (d in {dep}[k] and not isdata(d) and d not in {fin})), Key, Key)"),
         ("W2-nonempty", f"forall(lambda k: implies(k in {Wd}, {wait}[k] != EMPTY), Key)"),
-        ("W3-runnable", f"forall(lambda k, d: implies(k in K and k not in D and k not in {Wd} and d in {dep}[k], d in {fin} or d in D), Key, Key)"),
+        ("W3-runnable", f"forall(lambda k, d: implies(k in {K} and not isdata(k) and k not in {Wd} and d in {dep}[k], d in {fin} or isdata(d)), Key, Key)"),
         ("W4-waiting-data", f"forall(lambda d, k: implies(d in {wd}.keys(), (k in {wd}[d]) == (k in {dpt}[d] and k not in {fin})), Key, Key)"),
-        ("W5-dom", f"{wd}.keys() <= K and {rel} <= K and forall(lambda d: implies(d in K, (d in {wd}.keys()) == (d not in {rel})), Key)"),
-        ("W5-released", f"forall(lambda d: implies(d in {rel}, (d in {fin} or d in D) and d not in {R}), Key)"),
-        ("W5-held", f"forall(lambda d: implies(d in K and d not in {R} and (d in {fin} or d in D) and d not in {rel}, {wd}[d] != EMPTY), Key)"),
-        ("W6-needed", f"forall(lambda d: implies(d in K and d not in {R}, {dpt}[d] != EMPTY), Key)"),
+        ("W5-dom", f"{wd}.keys() <= {K} and {rel} <= {K} and forall(lambda d: implies(d in {K}, (d in {wd}.keys()) == (d not in {rel})), Key)"),
+        ("W5-released", f"forall(lambda d: implies(d in {rel}, (d in {fin} or isdata(d)) and d not in {R}), Key)"),
+        ("W5-held", f"forall(lambda d: implies(d in {K} and d not in {R} and (d in {fin} or isdata(d)) and d not in {rel}, {wd}[d] != EMPTY), Key)"),
+        ("W6-needed", f"forall(lambda d: implies(d in {K} and d not in {R}, {dpt}[d] != EMPTY), Key)"),
         ("W8-released-done", f"forall(lambda d, k: implies(d in {rel} and k in {dpt}[d], k in {fin}), Key, Key)"),
-        ("W7-cache-dom", f"forall(lambda k: (k in {cache}.keys()) == ((k in {fin} or k in D or k in {MID}) and k not in {rel}), Key)"),
+        ("W7-cache-dom", f"forall(lambda k: (k in {cache}.keys()) == ((k in {fin} or {inD('k')} or k in {MID}) and k not in {rel}), Key)"),
         ("W7-cache-val", f"forall(lambda k: implies(k in {cache}.keys(), {cache}[k] == denote(k)), Key)"),
     ]
 
@@ -123,15 +128,116 @@ finish_task = Contract(
     note="parameters sortkey (only orders the iteration: modelled as arbitrary order) and release_data (default never overridden by get_async) are dropped",
 )
 
-CONTRACTS = [release_data, finish_task]
+Fn = T.U("Fn")
+Blob = T.U("Blob")
+ArgT = T.Tup(Key, Blob, Fn, Fn, Fn, Fn)
+Future = T.U("Future")
+
+# ---- assumed contract of the executor's submit(): the ghost in-flight set IF and ever-submitted set SUB
+submit = Contract(
+    MODULE, "submit", assumed=True,
+    params={"fn": Fn, "batch": T.Seq(ArgT)},
+    free={"IF": SetK, "SUB": SetK},
+    frame=["IF", "SUB"],
+    returns=Future,
+    requires=[
+        ("batch-nonempty", "len(batch) >= 1"),
+        ("never-submitted-twice", "forall(lambda j: implies(0 <= j and j < len(batch), batch[j][0] not in SUB))"),
+        ("batch-distinct", "forall(lambda i, j: implies(0 <= i and i < j and j < len(batch), batch[i][0] != batch[j][0]))"),
+    ],
+    ensures=[
+        ("inflight-adds", "forall(lambda j: implies(0 <= j and j < len(batch), batch[j][0] in IF)) and old(IF) <= IF"),
+        ("inflight-only", "forall(lambda k: implies(k in IF, k in old(IF) or exists(lambda j: 0 <= j and j < len(batch) and batch[j][0] == k)), Key)"),
+        ("submitted-adds", "forall(lambda j: implies(0 <= j and j < len(batch), batch[j][0] in SUB)) and old(SUB) <= SUB"),
+        ("submitted-only", "forall(lambda k: implies(k in SUB, k in old(SUB) or exists(lambda j: 0 <= j and j < len(batch) and batch[j][0] == k)), Key)"),
+    ],
+    note="ASSUMED: concurrent.futures submit hands the batch to a worker exactly once",
+)
+
+FREE_FT = {"state": StateT, "num_workers": T.Int, "pretask_cbs": T.Seq(Fn), "dsk": T.Map(Key, Node), "dumps": Fn, "loads": Fn,
+           "get_id": Fn, "pack_exception": Fn, "queue": T.U("Queue"), "IF": SetK, "SUB": SetK, "results": SetK}
+
+GRAPH = [
+    ("dsk-covers-tasks", 'forall(lambda k: implies(k in state["dependencies"].keys() and not isdata(k), k in dsk.keys()), Key)'),
+]
+GHOST_INV = [
+    ("inflight-is-running", 'IF == state["running"]'),
+    ("submitted-once", 'SUB == state["running"] | state["finished"]'),
+]
+
+fire_tasks = Contract(
+    MODULE, "get_async.fire_tasks",
+    params={"chunksize": T.Int},
+    free=FREE_FT,
+    locals={"args": T.Seq(ArgT), "data": Cache, "akeys": T.Seq(Key)},
+    frame=["state", "IF", "SUB"],
+    requires=[("workers", "num_workers >= 1"), ("chunksize", "chunksize >= 1 or chunksize == -1")] + WF("state", "EMPTY") + GRAPH + GHOST_INV,
+    ensures=WF("state", "EMPTY") + GHOST_INV + FRAME(["dependencies", "dependents", "waiting", "waiting_data", "cache", "finished", "released"]) + [
+        ("running-grows", 'old(state["running"]) <= state["running"]'),
+        ("progress", 'implies(len(old(state["ready"])) >= 1 and old(state["running"]) == EMPTY, state["running"] != EMPTY)'),
+    ],
+    loops={
+        0: dict(
+            index="n",
+            invariant=WF("state", "EMPTY") + FRAME(["dependencies", "dependents", "waiting", "waiting_data", "cache", "finished", "released"]) + [
+                ("IF-same", "IF == old(IF) and SUB == old(SUB)"),
+                ("len-args", "len(args) == n and len(akeys) == n and n >= 0"),
+                ("ready-len", 'len(state["ready"]) == len(old(state["ready"])) - n'),
+                ("akeys", "forall(lambda j: implies(0 <= j and j < len(args), args[j][0] == akeys[j]))"),
+                ("akeys-distinct", "distinct(akeys)"),
+                ("akeys-fresh", 'forall(lambda k: implies(k in akeys, k not in old(state["running"])), Key)'),
+                ("running", 'state["running"] == old(state["running"]) | set(akeys)'),
+            ],
+        ),
+        1: dict(invariant=[]),  # for f in pretask_cbs: user callbacks, assumed not to touch scheduler state
+        2: dict(
+            index="b",
+            invariant=[
+                ("b", "b >= 0"),
+                ("IF-in", "forall(lambda j: implies(0 <= j and j < len(args), (akeys[j] in IF) == (j < b * chunksize)))"),
+                ("IF-out", "forall(lambda k: implies(k not in akeys, (k in IF) == (k in old(IF))), Key)"),
+                ("SUB-in", "forall(lambda j: implies(0 <= j and j < len(args), (akeys[j] in SUB) == (j < b * chunksize)))"),
+                ("SUB-out", "forall(lambda k: implies(k not in akeys, (k in SUB) == (k in old(SUB))), Key)"),
+            ],
+        ),
+    },
+    ghost=[
+        ("entry", "", "akeys = []"),
+        ("after", "args.append(", "akeys.append(key)"),
+        ("after", "data = ", 'assert_(data.keys() == state["dependencies"][key], "data-has-exactly-the-dependencies")\nassert_(forall(lambda d: implies(d in data.keys(), data[d] == denote(d)), Key), "task-receives-the-values-of-its-dependencies")'),
+        ("exit", "", 'assert_(implies(len(akeys) >= 1, akeys[0] in akeys), "first-popped-is-running")'),
+        ("before", "for i in range(-(len(args)", "lemma_ceil_div(len(args), chunksize)"),
+        ("after", "used_workers = ", 'lemma_ceil_div(len(state["running"]), chunksize)'),
+    ],
+)
+
+CONTRACTS = [release_data, finish_task, submit, fire_tasks]
 
 
 def setup(eng):
-    eng.consts["K"] = SV(z3.Const("K", SetK.sort()), SetK)
-    eng.consts["D"] = SV(z3.Const("D", SetK.sort()), SetK)
     eng.consts["EMPTY"] = SV(SetK.empty(), SetK)
     eng.spec_types["Key"] = Key
+    eng.funcs["isdata"] = FuncVal("isdata", "uf", (isdata, T.Bool, [Key]))
     eng.funcs["denote"] = FuncVal("denote", "uf", (denote, Val, [Key]))
     eng.funcs["release_data"] = FuncVal("release_data", "contract", release_data)
     eng.funcs["finish_task"] = FuncVal("finish_task", "contract", finish_task)
     eng.mutable_records.add("State")
+    eng.spec_types["Key"] = Key
+    eng.funcs.update(LEMMA_FUNCS)
+    eng.uninterp_divmod = True
+    eng.funcs["submit"] = FuncVal("submit", "contract", submit)
+    eng.funcs["batch_execute_tasks"] = FuncVal("batch_execute_tasks", "opaque")
+    eng.callable_sorts["Fn"] = call_fn
+    eng.attr_models[("method", "Future", "add_done_callback")] = lambda eng_, st, base, node, lv: SV(T.NoneT.value(), T.NoneT)
+
+
+def call_fn(eng, st, fv, node, want):
+    """A user-supplied callable (dumps/loads/get_id/callbacks): assumed not to touch scheduler
+    state; its result is an opaque value."""
+    import ast
+    from vf.core import fresh
+    name = ast.unparse(node.func)
+    for a in node.args:
+        eng.ev(a, st)
+    ret = {"dumps": Blob}.get(name, T.U("Opaque"))
+    return fresh(ret, name + "_ret")
